@@ -43,6 +43,10 @@ UNITS = [
     unit('await_suspend_bounded', 'sp_await_suspend', AS_RX, loop=False, extra_types=SPT, extra_boundary=[r'install_queue_and_call<cocls::suspend_point<void>::await_suspend'],
          spec=SPQ['spec'], harness='h_await_suspend', defines=['CV_QUEUE_INSTANCE_PTR QINST', 'SN_CF AS_CFP', 'CV_BOUNDED_FALLBACK 1', 'CV_BOUND_N 5', 'CV_COUNT_X 1'],
          unwind=8, kind='bounded', bounded='suspend points of <= 5 handles (inline and heap representation), loops unwound instead of loop contracts', timeout=900, object_bits=9),
+    dict(unit('await_suspend', 'sp_await_suspend', AS_RX, loop=False, extra_types=SPT, extra_names={'qi_flush': FLUSH_RX}, replace=['qi_flush'], extra_boundary=[FLUSH_RX],
+         spec=SPQ['spec'], harness='h_await_suspend_normal', defines=['CV_QUEUE_INSTANCE_PTR QINST', 'SN_CF AS_CFP', 'CV_BOUNDED_FALLBACK 1', 'CV_BOUND_N 5', 'CV_AS_NORMAL_BOUNDED 1'],
+         unwind=24, kind='bounded', bounded='co_await on a suspend point of <= 3 inline handles entered with NO queue installed (normal-mode branch incl. the nested re-entry)', timeout=900, object_bits=9),
+         name='await_suspend_normal_bounded', enforce=None),
     unit('clear', 'sp_clear', r'^cocls::suspend_point<void>::clear\(\)$', extra_types=SPT, extra_names={'sp_suspend_now': SN_RX}, extra_boundary=[SN_RX], spec=SPQ['spec']),
     unit('dtor', 'sp_dtor', r'^cocls::suspend_point<void>::~suspend_point\(\)$', extra_types=SPT, extra_names={'sp_suspend_now': SN_RX}, extra_boundary=[SN_RX], spec=SPQ['spec']),
     unit('ia_suspend', 'ia_suspend', r'^cocls::coro_queue::initial_awaiter::await_suspend\(std::__n4861::coroutine_handle<void>\)$', **WITH_FLUSH),
